@@ -649,6 +649,7 @@ func execute(c *Case, w World, runSeed uint64, replayTape []int64, replay bool, 
 	e.Replay = replay
 	e.replay = replayTape
 	e.RT = zsimrt.Begin()
+	e.RT.Seed = runSeed
 	e.RT.OnPanic = func(name string, v any, stack []byte) {
 		if e.OnPanic != nil {
 			e.OnPanic(name, v, string(stack))
